@@ -26,6 +26,14 @@ pub open spec fn crc_read_step(before: (u32, bool, Seq<u8>), after: (u32, bool, 
     && (r matches Ok(n) ==> n <= buf_len && after.2 == before.2 + out.subrange(0, n as int)
         && (n == 0 && buf_len > 0 ==> before.1 || before.0 == crc32(before.2)))
 }
+// the bounded view of the archive a crypto reader sits on (CryptoReader::into_inner, proved in U8)
+pub open spec fn crypto_take<'a>(c: CryptoReader<'a>) -> Take<DynRead<'a>> {
+    match c {
+        CryptoReader::Plaintext(t) => t,
+        CryptoReader::ZipCrypto(z) => z.g_file(),
+        CryptoReader::Aes { reader: a, .. } => a.g_reader(),
+    }
+}
 pub open spec fn is_ae2(c: CryptoReader) -> bool { c matches CryptoReader::Aes { vendor_version: AesVendorVersion::Ae2, .. } }
 pub open spec fn decodable(m: CompressionMethod) -> bool { m is Stored || m is Deflated || m is Bzip2 || m is Zstd }
 // representation invariant of an open entry: until the decoder stack is built, the crypto reader is there
